@@ -142,7 +142,8 @@ func genSemaExpr(rng *rand.Rand, env *semaEnv, depth int) string {
 		case 0:
 			return []string{"1", "0x10", "1.5", "-3"}[rng.Intn(4)]
 		case 1:
-			return []string{"'a'", "''", "'{0} {1}'", "'[1, 2]'", "'{\"A\": {\"b\": 1}, \"c\": [true]}'", "'{0'", "'x{0}{0}{3}'"}[rng.Intn(7)]
+			return []string{"'a'", "''", "'{0} {1}'", "'[1, 2]'", "'{\"A\": {\"b\": 1}, \"c\": [true]}'", "'{0'", "'x{0}{0}{3}'",
+				"'[TRUE]'", "'{\"a\": Null}'", "'FALSE'", "'{\"A\": tRue}'", "'[1, 2'", "'{\"a\": 1,}'", "'nUll'", "'\"TRUE\"'"}[rng.Intn(15)]
 		case 2:
 			return []string{"true", "false", "null"}[rng.Intn(3)]
 		default:
